@@ -76,7 +76,8 @@ class Sched:
             try:
                 fn()
             except Exception as ex:  # pylint: disable=broad-except
-                self.errors.append("%s: %s" % (type(ex).__name__, ex))
+                if type(ex).__name__ != "InjectedOutputError":
+                    self.errors.append("%s: %s" % (type(ex).__name__, ex))
             finally:
                 with self.cv:
                     self.finished.add(th)
@@ -144,7 +145,11 @@ def make_fakes(sched):
     return FakeTimer, FakeLock, FakeFile
 
 
-SKIP = {"call_update", "call_exit", "raise", "check", "stop", "print"}
+SKIP = {"call_update", "call_exit", "raise", "check", "stop", "print", "print_fail"}
+
+
+class InjectedOutputError(OSError):
+    pass
 
 
 def replay_schedule(case):
@@ -163,8 +168,34 @@ def replay_schedule(case):
         do_exit = any(h[0] == 0 and h[1] == "call_exit" for h in hist)
         bar = util.ProgressBar(10, None)
         bar._file = fake_file()
+        # outcome of every redraw, per thread, in the order of the behaviour
+        outcomes = {}
+        for th, act in hist:
+            if act in ("print", "print_fail"):
+                outcomes.setdefault(th, []).append(act == "print")
+        failing = any(act == "print_fail" for _, act in hist)
+        real_print = bar._print_status
+
+        def print_status():
+            th = sched.me()
+            seq = outcomes.get(th)
+            if seq:
+                if not seq.pop(0):
+                    raise InjectedOutputError("injected: the output stream rejects the write")
+            return real_print()
+        if failing:
+            bar._print_status = print_status
 
         def caller():
+            if failing:
+                # the APIs under this fault class use the bar as a context manager
+                try:
+                    with bar:
+                        for k in range(n_updates):
+                            bar.update(k)
+                except InjectedOutputError:
+                    pass
+                return
             bar.enter()
             for k in range(n_updates):
                 bar.update(k)
